@@ -1,5 +1,5 @@
 (* C09 proofs: totality (no Panic) of the four model layers and the central theorem. *)
-From OIDC Require Import Lib C09_Json C09_Codec C09_Verifier C09_Handler C09_Client C09_spec.
+From OIDC Require Import Lib C09_Json C09_Codec C09_Verifier C09_Handler C09_Client C09_Crypto C09_spec.
 
 (* ---- induction principle for the nested AST ---- *)
 Section JsonInd.
@@ -279,6 +279,38 @@ Proof.
     (destruct (a_ok a); cbn; [|discriminate]; destruct (a_body a); cbn; [discriminate|reflexivity|discriminate]).
 Qed.
 
+Lemma poll_total f g iv tok : poll f g true iv tok <> CPanic.
+Proof.
+  unfold poll. destruct (iv <=? 0)%Z; [discriminate|]. destruct (max_wait <? iv)%Z; [discriminate|].
+  destruct (http_request_guarded f g HDeviceToken tok) as [H1 _].
+  destruct (http_request f g true HDeviceToken tok); try discriminate. now elim H1.
+Qed.
+
+Lemma device_flow_total f g dev tok : device_flow f g true dev tok <> CPanic.
+Proof.
+  unfold device_flow. destruct (http_request_guarded f g HDeviceAuthz dev) as [H1 H2].
+  destruct (http_request f g true HDeviceAuthz dev) as [[j|]| |]; try discriminate.
+  - apply poll_total.
+  - now elim H2.
+  - now elim H1.
+Qed.
+
+Lemma device_flow_ticker_panics f g :
+  device_flow f g false {| a_ok := true; a_body := BJson (JObj [("device_code", JStr "d")]) |}
+                        {| a_ok := true; a_body := BJson (JObj []) |} = CPanic.
+Proof. reflexivity. Qed.
+
+Lemma decrypt_total t : decrypt_aes true t <> Panic.
+Proof.
+  unfold decrypt_aes. destruct (ot_other t); [discriminate|].
+  destruct (ot_chars t mod 4 =? 1)%N; [discriminate|].
+  destruct (decoded_len (ot_chars t) <? 16)%N; discriminate.
+Qed.
+
+Lemma decrypt_encoded_check_panics :
+  decrypt_aes false {| ot_chars := 4; ot_crlf := 18; ot_other := false |} = Panic.
+Proof. reflexivity. Qed.
+
 Lemma call_unguarded_panics f g :
   call f g false HDiscover {| a_ok := true; a_body := BJson JNull |} "https://op" = CPanic.
 Proof. reflexivity. Qed.
@@ -286,7 +318,7 @@ Proof. reflexivity. Qed.
 (* ---- central theorem ---- *)
 Lemma spec_model i : spec i (model i) = true.
 Proof.
-  destruct i as [d j t|k tok t|s|x|cx|e c q|h a e t|n amount dash]; cbn.
+  destruct i as [d j t|k tok t|s|x|cx|e c q|h a e t|dev tok t|o|n amount dash]; cbn.
   - pose proof (decode_total t d j) as H. destruct (decode t d j); try reflexivity. now elim H.
   - pose proof (verify_total (time_of t) (lang_of t) k tok) as H.
     destruct (verify _ _ true true k tok); try reflexivity. now elim H.
@@ -297,6 +329,10 @@ Proof.
   - pose proof (call_total (time_of t) (lang_of t) h a e) as H.
     pose proof (call_ok_well_formed (time_of t) (lang_of t) h a e) as W.
     destruct (call _ _ true h a e); try reflexivity; [now apply W | now elim H].
+  - pose proof (device_flow_total (time_of t) (lang_of t) dev tok) as H.
+    destruct (device_flow _ _ true dev tok); try reflexivity. now elim H.
+  - unfold decrypt_aes. destruct (ot_other o); [reflexivity|].
+    destruct (ot_chars o mod 4 =? 1)%N; [reflexivity|]. destruct (decoded_len (ot_chars o) <? 16)%N; reflexivity.
   - destruct ((n <=? 0)%Z || (amount <=? 0)%Z); reflexivity.
 Qed.
 
@@ -369,3 +405,17 @@ Lemma client_unguarded_refuted :
   forall (rfc3339_ok : string -> bool) (lang_class : string -> nat),
     exists h a e, call rfc3339_ok lang_class false h a e = CPanic.
 Proof. intros f g. do 3 eexists. apply call_unguarded_panics. Qed.
+
+Lemma client_total :
+  forall (rfc3339_ok : string -> bool) (lang_class : string -> nat),
+    (forall h a expect, call rfc3339_ok lang_class true h a expect <> CPanic) /\
+    (forall dev tok, device_flow rfc3339_ok lang_class true dev tok <> CPanic).
+Proof. intros f g; split; intros; [apply call_total | apply device_flow_total]. Qed.
+
+Lemma device_ticker_refuted :
+  forall (rfc3339_ok : string -> bool) (lang_class : string -> nat),
+    exists dev tok, device_flow rfc3339_ok lang_class false dev tok = CPanic.
+Proof. intros f g. do 2 eexists. apply device_flow_ticker_panics. Qed.
+
+Lemma opaque_encoded_check_refuted : exists t, decrypt_aes false t = Panic.
+Proof. eexists. exact decrypt_encoded_check_panics. Qed.
